@@ -18,7 +18,43 @@ UNITS += [
 
 UNITS += [
     Unit(name="c18.arena.reset", props=["C16", "C18"], tu=AR, roots=["asmjit::Arena::reset"], target="Arena_reset",
-         contracts="contracts/c18_arena.h", unwind=10, unwindset=["verif_memset.0:66"], object_bits=9, mem_gb=28, quick_defines=["VERIF_MAXSHIFT=12"], thorough_defines=["VERIF_MAXSHIFT=16"],
+         contracts="contracts/c18_arena.h", defines=["VERIF_UNIT_ARENA_RESET=1"], unwind=10, unwindset=["verif_memset.0:66"], object_bits=9, mem_gb=28, quick_defines=["VERIF_MAXSHIFT=12"], thorough_defines=["VERIF_MAXSHIFT=16"],
          kind="bounded", bound_note="block chain <= 3 blocks, dynamic block list <= 1 block, no static first block",
          trusted=["free: CBMC built-in model", "memset: byte loop stub"]),
 ]
+
+UNITS += [
+    Unit(name="c18.arena.alloc_reusable", props=["C18", "C15"], tu=AR, roots=["asmjit::Arena::_alloc_reusable"],
+         target="Arena__alloc_reusable", contracts="contracts/c18_arena.h", unwind=12, object_bits=9, mem_gb=28,
+         extra_cbmc=["--malloc-may-fail", "--malloc-fail-null"], quick_defines=["VERIF_MAXSHIFT=12"], thorough_defines=["VERIF_MAXSHIFT=16"], timeout=1500,
+         mutants=[("bump_not_advanced", r"\(\(self->_ptr\) = \(p \+ size\)\);", "((self->_ptr) = (p));")],
+         kind="bounded", bound_note="block chain as in c18.arena.alloc_oneshot (payloads <= 512 bytes); one list head per slot class; request size symbolic up to 2^12 (quick) / 2^16 (thorough)",
+         note="Arena::_alloc_oneshot is inlined here (replacing it by its contract ran into dfcc's handling of was_freed for conditionally present blocks); this unit proves the allocator contract the ArenaVector units assume",
+         trusted=["malloc: CBMC built-in model with --malloc-may-fail --malloc-fail-null"]),
+]
+
+UNITS += [
+    Unit(name="c18.arena.free_reusable", props=["C18"], tu=AR, roots=["asmjit::Arena::free_reusable", "asmjit::Arena::ManagedBlock::end"], target="Arena_free_reusable",
+         contracts="contracts/c18_arena.h", unwind=10, object_bits=8, kind="bounded",
+         bound_note="dynamic block list: the released block plus at most one other, in either order; slot list heads arbitrary",
+         mutants=[("next_prev_not_updated", r"\(\(next->prev\) = prev\);", "((next->prev) = next->prev);")],
+         trusted=["free: CBMC built-in model"]),
+]
+
+
+STROP = {"_op_string": 1, "_op_chars": 2, "_op_char": 3, "truncate": 4, "assign_span": 5, "pad_end": 6, "assign": 7}
+
+
+def str_unit(fn, cname, root=None, tiers=("dev",), unwind=34, note=""):
+    return Unit(name="c18.string." + fn, props=["C18", "C15"], tiers=tiers, tu="asmjit/core/string.cpp", roots=[root or "asmjit::String::" + fn], target=cname,
+                contracts="contracts/c18_string.h", unwind=unwind, extra_cbmc=["--malloc-may-fail", "--malloc-fail-null"], object_bits=9, mem_gb=24, kind="bounded",
+                defines=["VERIF_SCAP=16", "VERIF_SRC=8", "VERIF_STROP=%d" % STROP[fn]], replay="replay/c18_string_ops.cpp", quick_defines=["VERIF_STR_EMBEDDED_ONLY=1"], timeout=1500,
+                bound_note="pre-state: every embedded state (quick), plus heap/external buffers <= 16 bytes (thorough); sources <= 8 bytes, not aliasing the string",
+                note=note or "String::prepare is inlined (its own contract is unit c18.string.prepare)",
+                trusted=["malloc/free: CBMC built-in model with --malloc-may-fail --malloc-fail-null", "memcpy/memmove/memset/strlen: byte loop stubs / CBMC model"])
+
+
+ALLT, THO = ("quick", "thorough"), ("thorough",)
+UNITS += [str_unit("_op_string", "String__op_string", tiers=THO), str_unit("_op_chars", "String__op_chars", tiers=THO), str_unit("_op_char", "String__op_char", tiers=ALLT),
+          str_unit("truncate", "String_truncate", tiers=ALLT), str_unit("assign", "String_assign__char_p_u64", root="asmjit::String::assign#char_p,u64"),   # assign: out of memory (memmove stub), dev only
+          str_unit("assign_span", "String_assign__Span_char", root="asmjit::String::assign#Span_char", tiers=ALLT), str_unit("pad_end", "String_pad_end", tiers=THO)]
